@@ -20,6 +20,7 @@ import (
 	"html"
 	"net/http"
 	"net/url"
+	"os"
 	"regexp"
 	"sort"
 	"strconv"
@@ -657,6 +658,8 @@ func runC19(x *xctx) *violation {
 		return c19Sequential(x)
 	case mode < 6:
 		return c19Faults(x)
+	case mode < 7:
+		return c19Exhaustive(x)
 	default:
 		return c19Concurrent(x)
 	}
@@ -963,6 +966,53 @@ type c19call struct {
 	done     bool
 }
 
+// c19Enum makes c19Concurrent use the enumerable scheduling strategy and no
+// kill (set by c19Exhaustive around its calls).
+var c19Enum bool
+
+// c19Exhaustive: for one seeded workload of two or three single-request
+// clients, every schedule with at most two preemptive switches at sync and
+// I/O points is run (not sampled).
+func c19Exhaustive(x *xctx) *violation {
+	c19Enum = true
+	defer func() { c19Enum = false }()
+	// The workload comes from a sub-tape seeded by one draw of the run's tape,
+	// so that the enumeration below works on a tape that starts exactly where
+	// c19Concurrent starts drawing. First run: draws the workload (and random
+	// scheduling values, which the enumeration discards).
+	main := x.t
+	defer func() { x.t = main }()
+	x.t = simrt.NewTape(uint64(main.Choose(simrt.KCfg, 1<<30)))
+	if v := c19Concurrent(x); v != nil {
+		return v
+	}
+	base, kinds := x.t.Used(), x.t.UsedKinds()
+	// quick tier: every schedule with at most one preemptive switch; thorough
+	// tier: at most two (tens of thousands of schedules per workload).
+	bound, maxRuns := 1, 3000
+	if x.tier == "thorough" {
+		bound, maxRuns = 2, 80000
+	}
+	v, runs, complete := exploreBounded(x, base, kinds, bound, maxRuns, func() *violation { return c19Concurrent(x) })
+	x.stats["enumerated_schedules"] += int64(runs)
+	if complete {
+		x.probe(fmt.Sprintf("schedule_space_exhausted_preemption_bound_%d", bound))
+	} else if v == nil {
+		x.probe("schedule_enumeration_capped")
+	}
+	if v != nil {
+		v.Detail = fmt.Sprintf("(systematic enumeration, schedule %d) %s", runs, v.Detail)
+		return v
+	}
+	if s, ok := x.sample.(map[string]interface{}); ok {
+		s["mode"] = "concurrent-exhaustive"
+		s["schedules_enumerated"] = runs
+		s["preemption_bound"] = bound
+		s["complete_for_that_bound"] = complete
+	}
+	return nil
+}
+
 func c19Concurrent(x *xctx) *violation {
 	if c19ProfBytes == nil {
 		c19ProfBytes = c19Profile()
@@ -976,11 +1026,14 @@ func c19Concurrent(x *xctx) *violation {
 		prefix[i] = genC19Op(t, true)
 	}
 	ntasks := 2 + t.Choose(K, 2)
+	if c19Enum {
+		ntasks = 2 // two clients, one request each: small enough to enumerate completely
+	}
 	perTask := make([][]c19op, ntasks)
 	total := 0
 	for i := range perTask {
 		n := 1 + t.Choose(K, 2)
-		if total+n > 5 {
+		if total+n > 5 || c19Enum {
 			n = 1
 		}
 		for j := 0; j < n; j++ {
@@ -1003,6 +1056,10 @@ func c19Concurrent(x *xctx) *violation {
 	crashPct := 25
 	if x.tier == "thorough" {
 		crashPct = 45
+	}
+	if c19Enum {
+		cfg = simrt.Config{Strategy: simrt.StratEnum}
+		crashPct = 0
 	}
 	if t.Bool(simrt.KFault, crashPct) {
 		crashAt = t.Choose(simrt.KFault, 12*total)
@@ -1046,6 +1103,9 @@ func c19Concurrent(x *xctx) *violation {
 		}
 	})
 	simos.SetPlan(nil)
+	if os.Getenv("VERIF_DEBUG_ENUM") != "" {
+		fmt.Fprintf(os.Stderr, "c19Concurrent: enum=%v strategy=%v tasks=%d steps=%d switches=%d verdict=%v tapepos=%d err=%v viol=%v\n", c19Enum, cfg.Strategy, res.Tasks, res.Steps, res.Switches, res.Verdict, x.t.Pos(), err, viol)
+	}
 	if viol != nil {
 		return viol
 	}
